@@ -6,6 +6,7 @@ from snakeoil.sequences import iflatten_instance
 
 from ..log import logger
 from .atom import atom
+from .errors import MalformedAtom
 
 
 def _scan_directory(path, eapi):
@@ -70,7 +71,13 @@ def _process_updates(sequence, filename, mods, moved):
                     f"file {filename!r}: {raw_line!r} on line {lineno}: bad move form"
                 )
                 continue
-            src, trg = atom(line[1]), atom(line[2])
+            try:
+                src, trg = atom(line[1]), atom(line[2])
+            except MalformedAtom as exc:
+                logger.error(
+                    f"file {filename!r}: {raw_line!r} on line {lineno}: {exc}"
+                )
+                continue
             if src.fullver is not None:
                 logger.error(
                     f"file {filename!r}: {raw_line!r} on line {lineno}: "
@@ -106,7 +113,13 @@ def _process_updates(sequence, filename, mods, moved):
                     "bad slotmove form"
                 )
                 continue
-            src = atom(line[1])
+            try:
+                src = atom(line[1])
+            except MalformedAtom as exc:
+                logger.error(
+                    f"file {filename!r}: {raw_line!r} on line {lineno}: {exc}"
+                )
+                continue
 
             if src.key in moved:
                 logger.warning(
@@ -122,8 +135,14 @@ def _process_updates(sequence, filename, mods, moved):
                 )
                 continue
 
-            src_slot = atom(f"{src}:{line[2]}")
-            _ = atom(f"{src.key}:{line[3]}")
+            try:
+                src_slot = atom(f"{src}:{line[2]}")
+                _ = atom(f"{src.key}:{line[3]}")
+            except MalformedAtom as exc:
+                logger.error(
+                    f"file {filename!r}: {raw_line!r} on line {lineno}: {exc}"
+                )
+                continue
 
             mods[src.key][1].append(("slotmove", src_slot, line[3]))
         else:
